@@ -186,6 +186,10 @@ Weak1(v, lite) ==
                UNION {{SetAttr(v, n, w) : w \in Weak1(Attrs(v)[n], TRUE)} : n \in DOMAIN Attrs(v)}
           [] OTHER -> {})
 
+\* every unknown part of v is TYPED: its type constraint holds no placeholder (the standard-library property C12 speaks of typed
+\* unknown values; a parameter typed list(string) does not accept an unknown list(dynamic) by design of the call protocol)
+RECURSIVE TypedUnknowns(_)
+TypedUnknowns(v) == IF v.st = "unk" THEN ~HasDyn(v.ty) ELSE IF v.st = "k" THEN \A m \in Members(v) : TypedUnknowns(m) ELSE TRUE
 RECURSIVE WeakN(_, _, _)
 WeakN(v, n, lite) ==
   IF n = 0 THEN {v}
